@@ -736,6 +736,118 @@ theorem inv_dischargeWith (sc : Bundle.DischargeScope) (b : Bundle) (loc ka : By
     obtain ⟨s, m, rfl, _, _⟩ := dischargeOne_unverified htr
     rfl
 
+/-! ### third-party caveats added through the bundle -/
+
+/-- a third-party caveat in a caveat set prohibits every request -/
+theorem validate_tp_blocks (cs : CS) (loc : Bytes) (vk tk : Bytes) (h : Cav.tp loc vk tk ∈ cs) (rs : List Access) (hne : rs ≠ []) :
+    Macaroon.validate cs rs ≠ [] := by
+  cases rs with
+  | nil => exact absurd rfl hne
+  | cons a as =>
+    intro hv
+    simp only [Macaroon.validate, List.flatMap_cons, List.append_eq_nil_iff] at hv
+    obtain ⟨h1, _⟩ := hv
+    by_cases hw : a.wf.isEmpty = true
+    · simp only [hw, Bool.not_true] at h1
+      simp only [Bool.false_eq_true, if_false, validateAccess, List.flatMap_eq_nil_iff] at h1
+      have := h1 _ h
+      simp [Cav.isAttestation, prohibits] at this
+    · simp only [hw] at h1
+      simp at h1
+      simp [h1] at hw
+
+/-- what `Add` does with a single fresh third-party item: it is appended, carrying the VerifierKey
+sealed under the tail before it — unless a caveat with the same encoding was already there -/
+theorem add_single_new3p (c : M) (loc tk rn n : Bytes) (c' : M) (h : add c [.new3p loc tk rn n] = (c', none)) :
+    c'.cavs = c.cavs ++ [.tp loc (Crypto.sealKey c.tail n rn) tk] ∨
+    ((c.cavs.any fun x => Crypto.sameEnc x (.tp loc Crypto.empty tk)) = true ∧ c'.cavs = c.cavs) := by
+  unfold add at h
+  split at h
+  · simp at h
+  · split at h
+    · simp at h
+    · simp only [dedup, List.append_nil, AddItem.asCav] at h
+      split at h
+      · rename_i hd
+        simp only [addLoop, Prod.mk.injEq] at h
+        exact .inr ⟨hd, by rw [← h.1]⟩
+      · simp only [addLoop] at h
+        split at h
+        · simp at h
+        · split at h
+          · simp at h
+          · simp only [addLoop, Prod.mk.injEq] at h
+            exact .inl (by rw [← h.1])
+
+theorem map_some_of_mem {α β : Type} {f : α → Option β} : ∀ {l : List α} {r : List β}, l.map f = r.map some →
+    ∀ x ∈ l, ∃ y ∈ r, f x = some y
+  | [], _, _, x, hx => by cases hx
+  | _ :: _, [], h, _, _ => by simp at h
+  | a :: as, b :: bs, h, x, hx => by
+    simp only [List.map_cons, List.cons.injEq] at h
+    rcases List.mem_cons.mp hx with rfl | hx'
+    · exact ⟨b, by simp, h.1⟩
+    · obtain ⟨y, hy, hfy⟩ := map_some_of_mem h.2 x hx'
+      exact ⟨y, List.mem_cons_of_mem _ hy, hfy⟩
+
+/-- a bundle all of whose verified caveat sets hold a third-party caveat refuses every non-empty request list -/
+theorem validate_blocked (b : Bundle) (rs : List Access) (hne : rs ≠ [])
+    (h : ∀ cs ∈ b.verifiedSets, ∃ loc vk tk, Cav.tp loc vk tk ∈ cs) : b.validate rs = false := by
+  cases hv : b.validate rs with
+  | false => rfl
+  | true =>
+    obtain ⟨cs, hcs, hval⟩ := (validate_iff b rs).mp hv
+    obtain ⟨loc, vk, tk, hm⟩ := h cs hcs
+    exact absurd hval (validate_tp_blocks cs loc vk tk hm rs hne)
+
+/-- the verified set of an attenuated verified token: the old set followed by exactly the caveats
+`Add` appended to the clone — third-party caveats included -/
+theorem attenuate_verified_set (b : Bundle) (items : List (AddItem Bytes)) (hok : (b.attenuate items).2 = false)
+    (s : Str) (m : M) (cs : CS) (ht : Tok.verified s m cs ∈ b.ts) (hp : isPermAt b.permLoc (.verified s m cs) = true) :
+    ∃ s' m' c bytes, (Concrete.encode m).2.bind Concrete.decode = some c ∧ (add c items).2 = none ∧
+      Concrete.encode (add c items).1 = (m', some bytes) ∧ s' = macString bytes ∧
+      Tok.verified s' m' (cs ++ (add c items).1.cavs.drop c.cavs.length) ∈ (b.attenuate items).1.ts := by
+  obtain ⟨_, hmap⟩ := attenuate_ok b items hok
+  obtain ⟨t', ht', hft⟩ := map_some_of_mem hmap _ ht
+  simp only [hp, if_true] at hft
+  obtain ⟨s', m', added, hr, rfl⟩ := attTok_verified items s m cs t' hft
+  obtain ⟨c, bytes, hc, hadd, henc, hs, hadded⟩ := attMac_spec items m s' m' added hr
+  exact ⟨s', m', c, bytes, hc, hadd, henc, hs, hadded ▸ ht'⟩
+
+/-- after a successful attenuation in which `Add` appended a third-party caveat to (the clone of)
+every verified token, the bundle refuses every non-empty request list until it is verified again -/
+theorem attenuated_3p_blocks (b : Bundle) (items : List (AddItem Bytes)) (hok : (b.attenuate items).2 = false)
+    (inv : VerifiedArePerm b)
+    (h3p : ∀ s m cs, Tok.verified s m cs ∈ b.ts → ∀ c, (Concrete.encode m).2.bind Concrete.decode = some c →
+      ∃ loc vk tk, Cav.tp loc vk tk ∈ (add c items).1.cavs.drop c.cavs.length)
+    (rs : List Access) (hne : rs ≠ []) : (b.attenuate items).1.validate rs = false := by
+  apply validate_blocked _ rs hne
+  intro cs' hcs'
+  simp only [Bundle.verifiedSets, List.mem_filterMap] at hcs'
+  obtain ⟨t', ht', hc'⟩ := hcs'
+  obtain ⟨_, hmap⟩ := attenuate_ok b items hok
+  obtain ⟨t, ht, hft⟩ := mem_of_map_eq_map_some' hmap t' ht'
+  obtain ⟨s', m', rfl⟩ := (Tok.cs?_some_iff t' cs').mp hc'
+  by_cases hp : isPermAt b.permLoc t = true
+  · simp only [hp, if_true] at hft
+    have hv : t.isVerified = true := by rw [← attTok_isVerified items t _ hft]; rfl
+    cases t with
+    | verified s m cs =>
+      obtain ⟨s'', m'', added, hr, heq⟩ := attTok_verified items s m cs _ hft
+      obtain ⟨c, bytes, hc, _, _, _, hadded⟩ := attMac_spec items m s'' m'' added hr
+      obtain ⟨loc, vk, tk, hm⟩ := h3p s m cs ht c hc
+      simp only [Tok.verified.injEq] at heq
+      refine ⟨loc, vk, tk, ?_⟩
+      rw [heq.2.2, hadded]
+      exact List.mem_append_right _ hm
+    | nonMac s => simp [Tok.isVerified] at hv
+    | malformed s => simp [Tok.isVerified] at hv
+    | unverified s m => simp [Tok.isVerified] at hv
+    | failed s m => simp [Tok.isVerified] at hv
+  · simp only [hp, Bool.false_eq_true, if_false, Option.some.injEq] at hft
+    subst hft
+    exact absurd (inv _ ht rfl) hp
+
 /-! ## The verification cache -/
 
 open Macaroon.Bundle.Cache
